@@ -13,6 +13,17 @@ pub fn active() -> bool {
     KERNEL.with(|k| k.try_borrow().map(|k| k.active).unwrap_or(false))
 }
 
+thread_local! {
+    /// (Engine M) nothing has happened on this thread since it last waited for its turn inside this wait
+    static LOOKED_ONLY: std::cell::Cell<bool> = const { std::cell::Cell::new(false) };
+}
+
+/// A `Poller::wait` begins: the thread has been running its own code.
+pub fn begin_wait() {
+    LOOKED_ONLY.with(|l| l.set(false));
+    crate::multi::point();
+}
+
 /// Before every look at the real epoll instance: pool jobs and due environment actions.
 pub fn pump() {
     crate::check_memory_ledger();
@@ -43,6 +54,7 @@ pub fn delivered(user_events: usize, raw: usize) {
     if user_events > 1 {
         probe("poll-burst");
     }
+    LOOKED_ONLY.with(|l| l.set(false));
     klog(|| format!("kernel: epoll reports {user_events} event(s){}", if raw > user_events { " and the notifier" } else { "" }));
 }
 
@@ -58,6 +70,17 @@ pub fn idle(left: Option<Duration>) -> bool {
     }
     let (now, next_env) = with_kernel(|k| (k.clock_ns, k.env.iter().map(|e| e.due_ns).min()));
     let deadline = left.map(|d| now.saturating_add(d.as_nanos() as u64));
+    if crate::multi::active() {
+        // other threads of the run go on; this one looks again when something has happened elsewhere or when
+        // time has reached what it waits for (its deadline, which the caller then sees as a time-out)
+        let target = match (deadline, next_env) {
+            (Some(d), Some(e)) => Some(d.min(e)),
+            (d, e) => d.or(e),
+        };
+        crate::multi::wait_in_kernel(target, LOOKED_ONLY.with(|l| l.replace(true)));
+        run_due_env();
+        return true;
+    }
     let target = match (deadline, next_env) {
         (Some(d), Some(e)) => d.min(e),
         (Some(d), None) => d,
